@@ -292,7 +292,16 @@ func (pf *pfunc) inconsistent(fs *factSet) bool {
 	if len(rows) == 0 || len(rows) > 50 {
 		return false
 	}
-	return fmInfeasible(rows)
+	if fmInfeasible(rows) {
+		return true
+	}
+	// e != 0 against e >= 0 and e <= 0
+	for _, f := range fs.facts {
+		if f.neq != nil && fmInfeasible(append([]*lin{f.neq.addConst(-1)}, rows...)) && fmInfeasible(append([]*lin{f.neq.neg().addConst(-1)}, rows...)) {
+			return true
+		}
+	}
+	return false
 }
 
 func (pf *pfunc) holds(g pgoal, fs *factSet) bool {
